@@ -228,16 +228,20 @@ example :
     writer-domain object (C04's `save_layoutOk` supplies `LayoutOk`): any number of sections and
     segments; fewer than 2^16 sections; sections that occupy file space do not carry index 0 and
     SHT_NULL-typed sections are empty; no cursor wrap-around (`layoutNW`); distinct segment
-    indices; writer-domain side conditions at every segment (`layoutDomB false false`: members
-    count towards the memory size, member lists disjoint, no PHDR/offset-0 segment with members). -/
+    indices; writer-domain side conditions at every selected segment (`layoutDomB false false sel`:
+    members count towards the memory size, members not generated before the segment's turn, no
+    PHDR/offset-0 segment with members), where the selection contains every PT_LOAD segment with
+    file size > 0 (nested PT_NOTE/PT_TLS/… segments need not be selected: `validate` ignores them). -/
 theorem validate_silent_save (o : Obj) (os : OStream) (r : SaveRes) (hdr : Bytes)
     (hs : save o os = .ok r) (hok : r.ok = true) (hh : o.hdr = some hdr)
     (hn : o.secs.length < 65536)
     (h0 : ∀ (i : Nat) (s : SecBuf), o.secs[i]? = some s → s.Occ → s.index ≠ 0)
     (hnull0 : ∀ s ∈ o.secs, s.stype = BitVec.ofNat 32 SHT_NULL → s.size = 0)
     (hnw : layoutNW (preSave o) hdr = true) (hnd : (o.segs.map (·.index)).Nodup)
-    (hdom : layoutDomB false false (fun _ => true) (preSave o) hdr = true) : validate r.obj = [] :=
-  validate_silent r.obj (C04.save_layoutOk o os r hdr hs hok hh hn h0 hnull0 hnw hnd hdom)
+    (sel : Nat → Bool) (hdom : layoutDomB false false sel (preSave o) hdr = true)
+    (hsel : ∀ g ∈ r.obj.segs, g.stype = BitVec.ofNat 32 PT_LOAD → 0 < g.filesz.toNat → sel g.index = true) :
+    validate r.obj = [] :=
+  validate_silent r.obj (C04.save_layoutOk o os r hdr hs hok hh hn h0 hnull0 hnw hnd sel hdom hsel)
 
 /-- **Silence for the reloaded form**, relative to the loader: if the object obtained by loading the
     saved bytes reports the same type/size/offset/address for every section and the same
@@ -253,18 +257,19 @@ theorem validate_silent_reloaded (o : Obj) (os : OStream) (r : SaveRes) (hdr : B
     (h0 : ∀ (i : Nat) (s : SecBuf), o.secs[i]? = some s → s.Occ → s.index ≠ 0)
     (hnull0 : ∀ s ∈ o.secs, s.stype = BitVec.ofNat 32 SHT_NULL → s.size = 0)
     (hnw : layoutNW (preSave o) hdr = true) (hnd : (o.segs.map (·.index)).Nodup)
-    (hdom : layoutDomB false false (fun _ => true) (preSave o) hdr = true)
+    (sel : Nat → Bool) (hdom : layoutDomB false false sel (preSave o) hdr = true)
+    (hsel : ∀ g ∈ r.obj.segs, g.stype = BitVec.ofNat 32 PT_LOAD → 0 < g.filesz.toNat → sel g.index = true)
     (hsecs : o'.secs.map vkey = r.obj.secs.map vkey) (hsegs : o'.segs.map vgkey = r.obj.segs.map vgkey) :
     validate o' = [] := by
   rw [validate_congr r.obj o' hsecs hsegs]
-  exact validate_silent_save o os r hdr hs hok hh hn h0 hnull0 hnw hnd hdom
+  exact validate_silent_save o os r hdr hs hok hh hn h0 hnull0 hnw hnd sel hdom hsel
 
 /-- non-vacuity: `C04.exObj` (two members of a PT_LOAD, one with an explicit address, and two
     loose sections) meets every hypothesis, and its `save` succeeds -/
 example : ∀ r, save C04.exObj {} = .ok r → r.ok = true → validate r.obj = [] := by
   intro r hs hok
   refine validate_silent_save C04.exObj {} r C04.exHdr hs hok rfl (by decide) ?_ (by decide) (by decide)
-    (by decide) (by decide)
+    (by decide) (fun _ => true) (by decide) (fun _ _ _ _ => rfl)
   intro i s hs ho hi
   have : ∀ t ∈ C04.exObj.secs, t.index = 0 → ¬ t.Occ := by decide
   exact this s (List.mem_of_getElem? hs) hi ho
